@@ -79,13 +79,36 @@ EqDeltas == { <<1>>, Pad(<<>>, 7) \o <<128>>, BSub(Two64, <<1>>), FromBE(<<165, 
 EqPairs(p) == LET one == { << m, Bump(m, i, d) >> : m \in EqBases(p), i \in 1..4, d \in EqDeltas }
                   two == { << m, Bump(Bump(m, ij[1], d), ij[2], d) >> : m \in EqBases(p), ij \in { <<1,2>>, <<1,3>>, <<1,4>>, <<2,3>>, <<2,4>>, <<3,4>> }, d \in EqDeltas }
                   mix == { << m, Bump(Bump(m, 3, d), 4, BMod(BAdd(d, d), Two64)) >> : m \in EqBases(p), d \in EqDeltas }
-              IN { pr \in one \cup two \cup mix : BLess(pr[1], p) /\ BLess(pr[2], p) }
+                  \* cross-over: the two operands agree except that one is larger in limb i and the other in limb j
+                  cross == { << Bump(m, ij[1], d), Bump(m, ij[2], d) >> : m \in EqBases(p), ij \in { <<1,2>>, <<1,3>>, <<1,4>>, <<2,3>>, <<2,4>>, <<3,4>>, <<2,1>>, <<3,1>>, <<4,1>>, <<3,2>>, <<4,2>>, <<4,3>> }, d \in EqDeltas }
+              IN { pr \in one \cup two \cup mix \cup cross : BLess(pr[1], p) /\ BLess(pr[2], p) }
+\* squares whose Montgomery quotient has a ZERO digit at round i (i = 1, 2, 3): a = a_lo + W^i t + W^(i+1) hi, where the limb t solves
+\* the linear congruence  c + 2 a_lo t = 0 (mod W),  c = limb i of (a_lo^2 + k_low p) / W^i,  k_low = -a_lo^2 p^-1 mod W^i
+\* (solvable when c is even; a_lo odd).  Exercises the dedicated squaring routine where a reduction round has nothing to add.
+WPow(i) == Pad(<<>>, 8 * i) \o <<1>>
+SqZero(p, i, alo, hi) ==
+    LET Wi == WPow(i)
+        pinv == BMod(InvModR(p), Wi)
+        sq == BMul(alo, alo)
+        klow == BMod(BMul(BSub(Wi, BMod(sq, Wi)), pinv), Wi)
+        c == BMod(BDiv(BAdd(sq, BMul(klow, p)), Wi), Two64)
+        half == Pad(<<>>, 7) \o <<128>>
+        ainv == BMod(InvModR(alo), Two64)
+        t == BMod(BMul(BDiv(BSub(Two64, c), <<2>>), ainv), half)
+    IN IF BIsOdd(c) THEN {}
+       ELSE { a \in { BAdd(BAdd(alo, BMul(Wi, tt)), BMul(WPow(i + 1), hi)) : tt \in { t, BAdd(t, half) } } : BLess(a, p) }
+SqSeedsLo == { <<3>>, BSub(Two64, <<59>>), FromBE(<<18, 52, 86, 120, 154, 188, 222, 241>>), FromBE(<<165, 90, 60, 195, 15, 240, 51, 205>>),
+               FromBE(<<1, 35, 69, 103, 137, 171, 205, 239>>), FromBE(<<254, 220, 186, 152, 118, 84, 50, 17>>), <<7, 1>>, BSub(Two64, <<1>>) }
+SqSeedsMid == { <<>>, FromBE(<<77, 1, 2, 3, 4, 5, 6, 7>>), BSub(Two64, <<3>>), FromBE(<<9, 8, 7, 6, 5, 4, 3, 2, 1, 0, 1, 2, 3, 4, 5, 6>>) }
+SqZeros(p) == UNION { SqZero(p, 3, BAdd(BAdd(l, BMul(Two64, m1)), BMul(Two128, m2)), <<>>) : l \in SqSeedsLo, m1 \in SqSeedsMid, m2 \in { x \in SqSeedsMid : BLess(x, Two64) } }
+              \cup UNION { SqZero(p, 2, BAdd(l, BMul(Two64, m1)), hi) : l \in SqSeedsLo, m1 \in { x \in SqSeedsMid : BLess(x, Two64) }, hi \in { <<5>>, BDiv(LimbOf(p, 4), <<3>>) } }
+              \cup UNION { SqZero(p, 1, l, hi) : l \in SqSeedsLo, hi \in { <<9, 9>>, BAdd(Two64, <<1>>), BMul(Two64, BDiv(LimbOf(p, 4), <<2>>)) } }
 Enc32(a) == ToBE(a, 32)
 PoolOf(p) == [ eqpairs |-> SetToSeq({ << Enc32(OutOfMont(p, pr[1])), Enc32(OutOfMont(p, pr[2])) >> : pr \in EqPairs(p) }),
                sopq |-> IF p = Q THEN SetToSeq({ << Enc32(OutOfMont(p, c[1])), Enc32(OutOfMont(p, c[2])), Enc32(OutOfMont(p, c[3])), Enc32(OutOfMont(p, c[4])) >> : c \in SopQuads(p) }) ELSE <<>>,
                qpairs |-> SetToSeq({ << Enc32(OutOfMont(p, pr[1])), Enc32(OutOfMont(p, pr[2])) >> : pr \in QPairs(p) }),
                vpairs |-> SetToSeq({ << Enc32(OutOfMont(p, pr[1])), Enc32(OutOfMont(p, pr[2])) >> : pr \in VPairs(p) }),
-               vsq |-> IF p = Q THEN SetToSeq({ Enc32(OutOfMont(p, m)) : m \in VSquares }) ELSE <<>>,
+               vsq |-> SetToSeq({ Enc32(OutOfMont(p, m)) : m \in (IF p = Q THEN VSquares ELSE {}) \cup SqZeros(p) }),
                hi |-> SetToSeq({ Enc32(OutOfMont(p, m)) : m \in HiRes(p) }),
                lo |-> SetToSeq({ Enc32(OutOfMont(p, m)) : m \in LoRes(p) }),
                vals |-> SetToSeq({ Enc32(v) : v \in Vals(p) }),
